@@ -33,6 +33,13 @@ def stepCap (toks : List String) : Option String :=
     match ks.toNat?, ns.toNat? with
     | some k, some n => if k = 0 ∨ n > 64 then some "bad-op" else some s!"max={k} replied={k}/{k} returned=1"
     | _, _ => some "bad-op"
+  | ["caplisten", ks, as] =>
+    -- the real ListenAndServe on `a` addresses sharing ONE semaphore of the configured capacity (`gen_single_semaphore`):
+    -- with a ≤ k every reader holds at most one idle unit, k + a slow queries spread over the addresses fill the k units
+    -- and no more (`NV.C04`: the number of handlers never exceeds the capacity), and all are answered once released
+    match ks.toNat?, as.toNat? with
+    | some k, some a => if a = 0 ∨ k < a ∨ k > 64 then some "bad-op" else some s!"max={k} replied={k + a}/{k + a}"
+    | _, _ => some "bad-op"
   | _ => none
 
 end NV
